@@ -224,3 +224,18 @@ PROPS["C06"] = dict(
         dict(name="fuzz", fuzz="FuzzColored", fuzztime=180),
     ],
 )
+
+PROPS["C09"] = dict(
+    pkg="c09", level="exploration",
+    technique="metamorphic property-based testing (rapid): the same explicit-timestamp call replayed after independently generated histories must give identical bytes",
+    claim=("A generated probe call (any format, any severity incl. registered-with-colour, registered-without, unregistered, explicit "
+           "timestamp, fixed caller pc, groups, errors, multi-line and buffer-growing messages, UTC mode) is emitted four times: first, "
+           "after a generated history of 0-40 other calls (other loggers, formats, severities, sizes; optionally on three other goroutines with "
+           "the last call on the probe's own goroutine), after a second history, and immediately again; all four payloads must be "
+           "byte-identical. Exploration of sampled (history, probe) pairs."),
+    note="sync.Pool reuse cannot be forced or observed from outside; the last history call runs on the probe's goroutine so that the probe normally picks up the context that call returned to the pool. GC may drop pooled objects (covered statistically).",
+    rule=("rapid draws the probe and two histories. Non-trivial: a history contains a record longer than the probe, or of another format, or a "
+          "colored record of another severity; distinct = (format, severity, named, caller, class set, lengths of both histories)."),
+    assumptions=["attributes are rebuilt from the same description for every emission (the encoder sorts argument slices in place)"],
+    stages=[dict(name="history", run="^TestHistoryIndependence$", quick=8000, thorough=400000, shards=16, timeout_thorough=3000)],
+)
